@@ -172,6 +172,22 @@ def support_oracle(real):
     return why
 
 
+def sweep(desc):
+    """the same Coverage object genotyped twice: first with thresholds that let every observation through, then - after the
+    thresholds were set to the instance's own on the same profile - again. The second result must be that of a fresh object"""
+    from aldy import major, minor
+    d = with_extras(desc, "plus")
+    gene, gid, prof, cn_sol, cov = c04.build(d)
+    want = {k: getattr(prof, k) for k in ("min_quality", "min_mapq")}
+    out = None
+    for step, th in (("open", {"min_quality": 0, "min_mapq": 0}), ("own", want)):
+        prof.update(th)
+        ms = major.estimate_major(gene, cov, cn_sol, "cbc")
+        res = minor.estimate_minor(gene, cov, ms, "cbc", max_solutions=d.get("max_solutions", 1), **({"novel": True} if d.get("novel") else {})) if ms else []
+        out = {"major_sols": ms, "result": res}
+    return out
+
+
 def tie(ctx):
     r = lib.rng("c15")
     quick = ctx["tier"] == "quick"
@@ -194,6 +210,12 @@ def tie(ctx):
         stats["pairs"] += 1
         if kb != kp:
             violations.append({"why": f"adding sub-threshold observations changes the result: major {kb[0][:2]} -> {kp[0][:2]}, minor {kb[1][:1]} -> {kp[1][:1]}", "input": d, "signature": "c15:low_quality_changes_result"})
+        # thresholds are read when a stage runs, not when the evidence was first used
+        if stats["pairs"] % 3 == 1:
+            stats["threshold_sweeps"] += 1
+            ks = sol_key(sweep(d))
+            if ks != kp:
+                violations.append({"why": f"genotyping one Coverage object again after min_quality / min_mapq were raised gives major {ks[0][:2]} minor {ks[1][:1]}, a fresh object gives major {kp[0][:2]} minor {kp[1][:1]}", "input": d, "signature": "c15:stale_thresholds"})
         why = support_oracle(plus)
         if why:
             violations.append({"why": why[0], "all": why[:5], "input": d, "signature": "c15:unsupported_" + why[0].split(" ")[0]})
